@@ -8,6 +8,7 @@ mod exec;
 mod exec_ocf;
 mod fuzzdec;
 mod panics;
+mod race;
 mod scan;
 mod sink;
 mod sinkscan;
@@ -25,6 +26,7 @@ fn main() {
     panics::install();
     let code = match args[1].as_str() {
         "exec" => run_big(move || exec::run(&args[2], &args[3])),
+        "race" => race::run(&args[2]),
         "version" => {
             println!("avmon-exec 1");
             0
